@@ -171,7 +171,8 @@ def finish(rep, explanation, trusted_base, assumptions, exhaustive=False, replay
             rep.note("listed known finding no longer present: %s %s" % (rule, key))
 
     replay_paths = []
-    for ob in violated:
+    MAXPRINT = 40
+    for i, ob in enumerate(violated):
         h = hashlib.sha1(("%s|%s" % (ob.rule, ob.key)).encode()).hexdigest()[:12]
         path = os.path.join(VIOL_DIR, "%s-%s.json" % (rep.prop, h))
         with open(path, "w") as f:
@@ -179,6 +180,10 @@ def finish(rep, explanation, trusted_base, assumptions, exhaustive=False, replay
         rel = os.path.relpath(path, VERIF)
         replay_paths.append(rel)
         loc = "%s:%s" % (ob.file or "?", ob.line or "?")
+        if i == MAXPRINT:
+            out.append("... and %d more violations (each has a replay file under evidence/violations/; see the evidence file)" % (len(violated) - MAXPRINT))
+        if i >= MAXPRINT:
+            continue
         out.append(
             "%s in %s: rule %s — %s [instance %s]" % (loc, ob.func or "<table>", ob.rule, ob.what, ob.key)
         )
